@@ -1,5 +1,5 @@
-(* C17: iteration over FIXED_HASH arrays is exact for every range that starts on a segment boundary
-   (the guard that excludes exactly the known finding "strider-midsegment-start"). *)
+(* C17: iteration over FIXED_HASH arrays is exact for EVERY non-empty range [start, stop), aligned to segment
+   boundaries or not (the striders as repaired by the fix: commit; before it the unaligned case was a finding). *)
 From Coq Require Import List NArith ZArith Bool Lia ZifyBool ZifyN ZifyNat Arith.
 From QV Require Import Qarray.Model Qarray.Proofs.
 Import ListNotations.
@@ -77,87 +77,122 @@ Section Hash.
       exists q'. repeat split; try lia. exact Hs.
   Qed.
 
-  Lemma seek_start_sound fuel s q m c' :
-    seek_start n asg fuel a s (q * ss) m = Some c' ->
-    exists q', c' = q' * ss /\ q <= q' /\ q' mod n = s /\ (q' = q \/ q' * ss < m).
+  (* seek_start from an arbitrary start (q0 = start / ss): either the start itself (its segment is mine),
+     or the first of my segments after it *)
+  Lemma seek_start_sound fuel s start m c' :
+    seek_start n asg fuel a s start m = Some c' ->
+    (c' = start /\ (start / ss) mod n = s) \/
+    (exists q', c' = q' * ss /\ start / ss < q' /\ q' mod n = s /\ q' * ss < m) \/
+    (start mod ss = 0 /\ c' = start /\ (start / ss) mod n = s).
   Proof.
-    unfold seek_start. fold ss. rewrite shepof_aligned.
-    destruct ((0 <? q * ss) && negb (q mod n =? s)) eqn:E.
-    - rewrite N.mod_mul by exact ss_ne. rewrite N.sub_0_r.
-      destruct (m <=? q * ss + ss) eqn:E2; [discriminate|].
-      replace (q * ss + ss) with ((q + 1) * ss) by lia.
+    unfold seek_start. fold ss. rewrite shepof_hash.
+    pose proof (N.div_mod start ss ss_ne) as Hd. pose proof (N.mod_lt start ss ss_ne) as Hr.
+    set (q0 := start / ss) in *. set (r := start mod ss) in *.
+    destruct ((0 <? start) && negb (q0 mod n =? s)) eqn:E.
+    - replace (start + (ss - r)) with ((q0 + 1) * ss) by lia.
+      destruct (m <=? (q0 + 1) * ss) eqn:E2; [discriminate|]. apply N.leb_gt in E2.
       intros H. destruct (seek_sound _ _ _ _ _ H) as (q' & -> & Hq & Hm & Hor).
-      apply N.leb_gt in E2.
-      exists q'. repeat split; try lia.
-    - apply seek_sound.
+      right; left. exists q'. repeat split; try lia.
+    - (* seek from start itself: it answers at once when the segment is mine; otherwise start = 0 *)
+      apply andb_false_iff in E. destruct E as [E|E].
+      + apply N.ltb_ge in E. assert (start = 0) by lia.
+        assert (q0 = 0) by (unfold q0; rewrite H; apply N.div_0_l; exact ss_ne).
+        replace start with (0 * ss) by lia.
+        intros H1. destruct (seek_sound _ _ _ _ _ H1) as (q' & -> & Hq & Hm & Hor).
+        destruct (N.eq_dec q' 0) as [->|Hne].
+        * left. split; [lia|]. rewrite H0. exact Hm.
+        * right; left. exists q'. repeat split; try lia.
+      + apply negb_false_iff in E. apply N.eqb_eq in E.
+        destruct fuel as [|f]; cbn [seek]; [discriminate|].
+        rewrite shepof_hash. fold q0. rewrite E, N.eqb_refl.
+        intros H; inversion H as [Hc']. left. split; [congruence | first [reflexivity | exact E]].
   Qed.
 
-  Lemma seek_start_finds fuel s q qt m :
-    q <= qt -> qt mod n = s -> qt * ss < m -> (N.to_nat (qt - q) < fuel)%nat ->
-    exists q', seek_start n asg fuel a s (q * ss) m = Some (q' * ss) /\ q <= q' <= qt /\ q' mod n = s.
+  Lemma seek_start_finds fuel s start qt m :
+    start / ss <= qt -> qt mod n = s -> (qt = start / ss \/ qt * ss < m) -> start < m ->
+    (N.to_nat (qt - start / ss) < fuel)%nat ->
+    exists c', seek_start n asg fuel a s start m = Some c' /\
+               ((c' = start /\ (start / ss) mod n = s) \/
+                (exists q', c' = q' * ss /\ start / ss < q' <= qt /\ q' mod n = s)).
   Proof.
-    intros Hle Hqt Hm Hf. unfold seek_start. fold ss. rewrite shepof_aligned.
-    destruct ((0 <? q * ss) && negb (q mod n =? s)) eqn:E.
-    - rewrite N.mod_mul by exact ss_ne. rewrite N.sub_0_r.
-      apply andb_prop in E. destruct E as [_ E]. apply negb_true_iff in E. apply N.eqb_neq in E.
-      assert (q <> qt) by (intros ->; contradiction).
-      assert (Hlt : (q + 1) * ss <= qt * ss) by nia.
-      destruct (m <=? q * ss + ss) eqn:E2; [apply N.leb_le in E2; lia|].
-      replace (q * ss + ss) with ((q + 1) * ss) by lia.
-      destruct (seek_finds fuel s (q + 1) qt m) as (q' & Hs & Hb & Hmq); try lia.
-      exists q'. repeat split; try lia. exact Hs.
-    - apply seek_finds; assumption.
+    intros Hle Hqt Hor Hsm Hf. unfold seek_start. fold ss. rewrite shepof_hash.
+    pose proof (N.div_mod start ss ss_ne) as Hd. pose proof (N.mod_lt start ss ss_ne) as Hr.
+    set (q0 := start / ss) in *. set (r := start mod ss) in *.
+    destruct ((0 <? start) && negb (q0 mod n =? s)) eqn:E.
+    - apply andb_prop in E. destruct E as [_ E]. apply negb_true_iff in E. apply N.eqb_neq in E.
+      assert (q0 <> qt) by (intros ->; contradiction).
+      assert (Hm : qt * ss < m) by (destruct Hor; [congruence | assumption]).
+      assert (Hlt : (q0 + 1) * ss <= qt * ss) by nia.
+      replace (start + (ss - r)) with ((q0 + 1) * ss) by lia.
+      destruct (m <=? (q0 + 1) * ss) eqn:E2; [apply N.leb_le in E2; lia|].
+      destruct (seek_finds fuel s (q0 + 1) qt m) as (q' & Hs & Hb & Hmq); try lia.
+      exists (q' * ss). split; [exact Hs|]. right. exists q'. repeat split; try lia.
+    - apply andb_false_iff in E. destruct E as [E|E].
+      + apply N.ltb_ge in E. assert (start = 0) by lia.
+        assert (Hq00 : q0 = 0) by (unfold q0; rewrite H; apply N.div_0_l; exact ss_ne).
+        replace start with (0 * ss) by lia.
+        assert (Hm : qt * ss < m) by (destruct Hor as [->|]; [rewrite Hq00; lia | assumption]).
+        destruct (seek_finds fuel s 0 qt m) as (q' & Hs & Hb & Hmq); try lia.
+        exists (q' * ss). split; [exact Hs|].
+        destruct (N.eq_dec q' 0) as [->|Hne].
+        * left. split; [lia | rewrite Hq00; exact Hmq].
+        * right. exists q'. repeat split; try lia.
+      + apply negb_false_iff in E. apply N.eqb_eq in E.
+        destruct fuel as [|f]; [lia|]. cbn [seek]. rewrite shepof_hash. fold q0. rewrite E, N.eqb_refl.
+        exists start. split; [reflexivity|]. left. split; [reflexivity | first [reflexivity | exact E]].
   Qed.
 
   (* ---------------- the main loop ---------------- *)
-  Lemma covers_chunks_hash fuel s q m i :
-    q * ss < m -> (N.to_nat ((m - q * ss) / (ss * n)) < fuel)%nat ->
-    covers (chunks n asg fuel a s (q * ss) m) i =
-    if (q * ss <=? i) && (i <? m) && ((i / ss - q) mod n =? 0) then 1%nat else 0%nat.
+  Lemma covers_chunks_hash fuel s c m i :
+    c < m -> (N.to_nat ((m - (c - c mod ss)) / (ss * n)) < fuel)%nat ->
+    covers (chunks n asg fuel a s c m) i =
+    if (c <=? i) && (i <? m) && ((i / ss - c / ss) mod n =? 0) then 1%nat else 0%nat.
   Proof.
-    revert q. induction fuel as [|f IH]; intros q Hcm Hf; [exfalso; exact (Nat.nlt_0_r _ Hf)|].
+    revert c. induction fuel as [|f IH]; intros c Hcm Hf; [exfalso; exact (Nat.nlt_0_r _ Hf)|].
     cbn [chunks]. rewrite K. fold ss. cbn [covers].
     pose proof (div_bounds i) as [Hlo Hhi]. set (qi := i / ss) in *.
     pose proof ss_ne as Hs0. pose proof n_ne as Hn0.
+    pose proof (N.div_mod c ss Hs0) as Hc. pose proof (N.mod_lt c ss Hs0) as Hr.
+    set (q := c / ss) in *. set (r := c mod ss) in *.
     assert (Hssn : ss * n <> 0) by nia.
-    assert (Hstep : q * ss + ss * n = (q + n) * ss) by lia.
-    (* the recursive part, evaluated with the induction hypothesis *)
+    assert (Hstep : c - r + ss * n = (q + n) * ss) by lia.
+    rewrite Hstep.
+    assert (Hal : ((q + n) * ss) mod ss = 0) by (apply N.mod_mul; exact Hs0).
+    assert (Hdv : ((q + n) * ss) / ss = q + n) by (apply N.div_mul; exact Hs0).
     assert (Hrest :
-      covers (if m <=? q * ss + ss * n then [] else chunks n asg f a s (q * ss + ss * n) m) i =
+      covers (if m <=? (q + n) * ss then [] else chunks n asg f a s ((q + n) * ss) m) i =
       if ((q + n) * ss <=? i) && (i <? m) && ((qi - (q + n)) mod n =? 0) then 1%nat else 0%nat).
-    { destruct (m <=? q * ss + ss * n) eqn:E2.
+    { destruct (m <=? (q + n) * ss) eqn:E2.
       - apply N.leb_le in E2. cbn [covers].
         destruct ((q + n) * ss <=? i) eqn:A; [|reflexivity].
         destruct (i <? m) eqn:B; [|reflexivity]. lia.
-      - apply N.leb_gt in E2. rewrite Hstep. apply IH; [lia|].
-        assert ((m - q * ss) / (ss * n) = (m - (q + n) * ss) / (ss * n) + 1).
-        { replace (m - q * ss) with ((m - (q + n) * ss) + 1 * (ss * n)) by lia.
+      - apply N.leb_gt in E2. rewrite IH; [rewrite Hdv; reflexivity | lia |].
+        rewrite Hal, N.sub_0_r.
+        assert ((m - (c - r)) / (ss * n) = (m - (q + n) * ss) / (ss * n) + 1).
+        { replace (m - (c - r)) with ((m - (q + n) * ss) + 1 * (ss * n)) by lia.
           rewrite N.div_add by exact Hssn. reflexivity. }
-        lia. }
+        set (x := (m - (q + n) * ss) / (ss * n)) in *. set (y := (m - (c - r)) / (ss * n)) in *. lia. }
     rewrite Hrest. clear Hrest IH.
-    set (mo := if ss <? m - q * ss then ss else m - q * ss).
-    assert (Hmo : mo = N.min ss (m - q * ss)).
-    { unfold mo. destruct (ss <? m - q * ss) eqn:E; lia. }
-    destruct (q * ss <=? i) eqn:A1.
-    2:{ (* i below the first chunk *)
-      apply N.leb_gt in A1. cbn [andb].
-      replace ((q + n) * ss <=? i) with false by lia. cbn [andb]. lia. }
+    set (mo := if ss - r <? m - c then ss - r else m - c).
+    assert (Hmo : c + mo = N.min ((q + 1) * ss) m).
+    { unfold mo. destruct (ss - r <? m - c) eqn:E; lia. }
+    destruct (c <=? i) eqn:A1.
+    2:{ apply N.leb_gt in A1. cbn [andb].
+        replace ((q + n) * ss <=? i) with false by nia. cbn [andb]. reflexivity. }
     apply N.leb_le in A1.
     assert (Hq : q <= qi) by nia.
     destruct (i <? m) eqn:A2.
     2:{ apply N.ltb_ge in A2. cbn [andb]. rewrite andb_false_r. cbn [andb].
-        replace (i <? q * ss + mo) with false by lia. reflexivity. }
+        replace (i <? c + mo) with false by lia. reflexivity. }
     apply N.ltb_lt in A2. cbn [andb].
     destruct (N.lt_ge_cases qi (q + 1)) as [C1|C1].
-    - (* same segment as the chunk start: covered by the first range only *)
-      assert (qi = q) by lia. subst qi. rewrite H in *.
-      replace (i <? q * ss + mo) with true by lia.
+    - assert (Hqq : qi = q) by lia. rewrite Hqq in *.
+      replace (i <? c + mo) with true by lia.
       replace ((q + n) * ss <=? i) with false by nia.
       replace (q - q) with 0 by lia. rewrite N.mod_0_l by exact Hn0. reflexivity.
-    - replace (i <? q * ss + mo) with false by nia. cbn [Nat.add].
+    - replace (i <? c + mo) with false by nia. cbn [Nat.add].
       destruct (N.lt_ge_cases qi (q + n)) as [C2|C2].
-      + (* between: another shepherd's segment *)
-        replace ((q + n) * ss <=? i) with false by nia. cbn [andb].
+      + replace ((q + n) * ss <=? i) with false by nia. cbn [andb].
         rewrite N.mod_small by lia.
         replace (qi - q =? 0) with false by lia. reflexivity.
       + replace ((q + n) * ss <=? i) with true by nia. cbn [andb].
@@ -174,63 +209,85 @@ Section Hash.
     lia.
   Qed.
 
-  Lemma fuel_enough_chunks q stop : q * ss < stop ->
-    (N.to_nat ((stop - q * ss) / (ss * n)) < fuel_of a stop)%nat.
+  Lemma fuel_enough_chunks c stop : c < stop ->
+    (N.to_nat ((stop - (c - c mod ss)) / (ss * n)) < fuel_of a stop)%nat.
   Proof.
     intros H. unfold fuel_of. fold ss.
     pose proof ss_ne. pose proof n_ne.
-    assert ((stop - q * ss) / (ss * n) <= stop / ss).
+    assert ((stop - (c - c mod ss)) / (ss * n) <= stop / ss).
     { rewrite <- N.div_div by assumption.
-      set (x := (stop - q * ss) / ss).
+      set (x := (stop - (c - c mod ss)) / ss).
       assert (x / n <= x) by (apply N.div_le_upper_bound; [assumption | nia]).
       assert (x <= stop / ss) by (apply N.div_le_mono; [assumption | lia]).
       lia. }
-    lia.
+    set (x := (stop - (c - c mod ss)) / (ss * n)) in *. set (y := stop / ss) in *. lia.
   Qed.
 
-  Lemma strider_hash_covers s q0 stop i :
-    s < n -> q0 * ss <= i < stop ->
-    covers (strider n asg a s (q0 * ss) stop) i = if (i / ss) mod n =? s then 1%nat else 0%nat.
+  Lemma strider_hash_covers s start stop i :
+    s < n -> start <= i < stop ->
+    covers (strider n asg a s start stop) i = if (i / ss) mod n =? s then 1%nat else 0%nat.
   Proof.
     intros Hs [Hi1 Hi2]. unfold strider. rewrite K. fold ss.
     pose proof (div_bounds i) as [Hlo Hhi]. set (qi := i / ss) in *.
+    pose proof (div_bounds start) as [Hslo Hshi]. set (q0 := start / ss) in *.
     assert (Hq0 : q0 <= qi) by nia.
     destruct (qi mod n =? s) eqn:E.
     - apply N.eqb_eq in E.
-      destruct (seek_start_finds (fuel_of a stop) s q0 qi stop) as (q' & Hsk & Hb & Hm); try lia.
-      { apply fuel_enough; lia. }
-      rewrite Hsk. rewrite covers_chunks_hash; [| nia | apply fuel_enough_chunks; nia].
-      fold qi.
-      replace (q' * ss <=? i) with true by nia.
-      replace (i <? stop) with true by lia. cbn [andb].
-      assert (Hz : (qi - q') mod n = 0) by (apply sub_mod_zero; lia).
-      rewrite Hz. reflexivity.
+      assert (P1 : start / ss <= qi) by exact Hq0.
+      assert (P2 : qi = start / ss \/ qi * ss < stop) by (right; nia).
+      assert (P3 : start < stop) by lia.
+      assert (P4 : (N.to_nat (qi - start / ss) < fuel_of a stop)%nat) by (apply fuel_enough; [exact Hq0 | nia]).
+      destruct (seek_start_finds (fuel_of a stop) s start qi stop P1 E P2 P3 P4) as (c' & Hsk & Hshape).
+      rewrite Hsk.
+      destruct Hshape as [[-> Hown]|(q' & -> & Hb & Hm)].
+      + rewrite covers_chunks_hash; [| lia | apply fuel_enough_chunks; lia].
+        fold qi q0.
+        replace (start <=? i) with true by lia. replace (i <? stop) with true by lia. cbn [andb].
+        assert (Hz : (qi - q0) mod n = 0) by (apply sub_mod_zero; [exact Hq0 | fold q0 in Hown; congruence]).
+        rewrite Hz. reflexivity.
+      + fold q0 in Hb.
+        rewrite covers_chunks_hash; [| nia | apply fuel_enough_chunks; nia].
+        rewrite div_mul'. fold qi.
+        replace (q' * ss <=? i) with true by nia.
+        replace (i <? stop) with true by lia. cbn [andb].
+        assert (Hz : (qi - q') mod n = 0) by (apply sub_mod_zero; lia).
+        rewrite Hz. reflexivity.
     - apply N.eqb_neq in E.
-      destruct (seek_start n asg (fuel_of a stop) a s (q0 * ss) stop) as [c'|] eqn:Hsk; [|reflexivity].
-      destruct (seek_start_sound _ _ _ _ _ Hsk) as (q' & -> & Hq & Hm & Hor).
-      destruct (N.lt_ge_cases (q' * ss) stop) as [Hlt|Hge].
-      + rewrite covers_chunks_hash; [| exact Hlt | apply fuel_enough_chunks; exact Hlt].
-        fold qi.
+      destruct (seek_start n asg (fuel_of a stop) a s start stop) as [c'|] eqn:Hsk; [|reflexivity].
+      destruct (seek_start_sound _ _ _ _ _ Hsk) as [[-> Hown]|[(q' & -> & Hq & Hm & Hlt)|(_ & -> & Hown)]].
+      + rewrite covers_chunks_hash; [| lia | apply fuel_enough_chunks; lia].
+        fold qi q0. fold q0 in Hown.
+        replace (start <=? i) with true by lia. replace (i <? stop) with true by lia. cbn [andb].
+        destruct ((qi - q0) mod n =? 0) eqn:Z; [|reflexivity].
+        apply N.eqb_eq in Z. apply sub_mod_zero in Z; [|exact Hq0]. congruence.
+      + fold q0 in Hq.
+        rewrite covers_chunks_hash; [| exact Hlt | apply fuel_enough_chunks; exact Hlt].
+        rewrite div_mul'. fold qi.
         destruct (q' * ss <=? i) eqn:A1; [|reflexivity]. apply N.leb_le in A1.
         replace (i <? stop) with true by lia. cbn [andb].
         destruct ((qi - q') mod n =? 0) eqn:Z; [|reflexivity].
         apply N.eqb_eq in Z. apply sub_mod_zero in Z; [|nia]. lia.
-      + (* only possible when q' = q0 and the range is empty: excluded by q0*ss <= i < stop *)
-        destruct Hor as [->|]; lia.
+      + rewrite covers_chunks_hash; [| lia | apply fuel_enough_chunks; lia].
+        fold qi q0. fold q0 in Hown.
+        replace (start <=? i) with true by lia. replace (i <? stop) with true by lia. cbn [andb].
+        destruct ((qi - q0) mod n =? 0) eqn:Z; [|reflexivity].
+        apply N.eqb_eq in Z. apply sub_mod_zero in Z; [|exact Hq0]. congruence.
   Qed.
 
-  Lemma strider_hash_outside s q0 stop i :
-    s < n -> q0 * ss < stop -> ~ (q0 * ss <= i < stop) ->
-    covers (strider n asg a s (q0 * ss) stop) i = 0%nat.
+  Lemma strider_hash_outside s start stop i :
+    s < n -> start < stop -> ~ (start <= i < stop) ->
+    covers (strider n asg a s start stop) i = 0%nat.
   Proof.
     intros Hs Hne Hout. unfold strider. rewrite K. fold ss.
-    destruct (seek_start n asg (fuel_of a stop) a s (q0 * ss) stop) as [c'|] eqn:Hsk; [|reflexivity].
-    destruct (seek_start_sound _ _ _ _ _ Hsk) as (q' & -> & Hq & Hm & Hor).
-    assert (Hlt : q' * ss < stop) by (destruct Hor as [->|]; lia).
-    rewrite covers_chunks_hash; [| exact Hlt | apply fuel_enough_chunks; exact Hlt].
-    destruct (q' * ss <=? i) eqn:A1; [|reflexivity]. apply N.leb_le in A1.
+    pose proof (div_bounds start) as [Hslo Hshi]. set (q0 := start / ss) in *.
+    destruct (seek_start n asg (fuel_of a stop) a s start stop) as [c'|] eqn:Hsk; [|reflexivity].
+    assert (Hc : start <= c' /\ c' < stop).
+    { destruct (seek_start_sound _ _ _ _ _ Hsk) as [[-> _]|[(q' & -> & Hq & Hm & Hlt)|(_ & -> & _)]]; try lia.
+      fold q0 in Hq. nia. }
+    rewrite covers_chunks_hash; [| lia | apply fuel_enough_chunks; lia].
+    destruct (c' <=? i) eqn:A1; [|reflexivity]. apply N.leb_le in A1.
     destruct (i <? stop) eqn:A2; [|reflexivity]. apply N.ltb_lt in A2.
-    exfalso. apply Hout. nia.
+    exfalso. apply Hout. lia.
   Qed.
 
   (* loop_strider hands out the same ranges for FIXED_HASH *)
@@ -273,27 +330,26 @@ Section Hash.
       lia.
   Qed.
 
-  Theorem iter_exact_hash_aligned start stop :
-    start mod ss = 0 -> start < stop ->
+  Theorem iter_exact_hash start stop :
+    start < stop ->
     iter_exact n asg a start stop (iter n asg a start stop) /\
     iter_exact n asg a start stop (iter_loop n asg a start stop).
   Proof.
-    intros Hal Hlt.
-    assert (Hq0 : start = (start / ss) * ss).
-    { pose proof (N.div_mod start ss ss_ne). lia. }
-    set (q0 := start / ss) in *.
+    intros Hlt.
     assert (Hil : iter_loop n asg a start stop = iter n asg a start stop).
     { unfold iter_loop, iter. apply map_ext. intros s. rewrite loop_strider_hash. reflexivity. }
     rewrite Hil. assert (G : iter_exact n asg a start stop (iter n asg a start stop)); [|split; exact G].
     unfold iter, spawned. rewrite K. fold ss.
-    destruct (stop - start <? ss) eqn:Esmall.
+    pose proof (div_bounds start) as [Hslo Hshi]. set (q0 := start / ss) in *.
+    destruct (q0 =? (stop - 1) / ss) eqn:Esmall.
     - (* the whole range lies inside segment q0: one strider on its owner *)
-      apply N.ltb_lt in Esmall. rewrite Hq0, shepof_aligned.
+      apply N.eqb_eq in Esmall. rewrite shepof_hash. fold q0.
+      pose proof (div_bounds (stop - 1)) as [Hplo Hphi]. rewrite <- Esmall in Hplo, Hphi.
       assert (Hs : q0 mod n < n) by (apply N.mod_lt; exact n_ne).
       intros i. cbn [map total_covers fold_right snd]. split.
       + intros Hin. rewrite strider_hash_covers by (try assumption; lia).
         pose proof (div_bounds i) as [Hlo Hhi].
-        assert (i / ss = q0) by nia. rewrite H, N.eqb_refl. split; [reflexivity|].
+        assert (H : i / ss = q0) by nia. rewrite H, N.eqb_refl. split; [reflexivity|].
         intros s l [Heq|[]] _. inversion Heq; subst s l. rewrite shepof_hash, H. reflexivity.
       + intros Hout. rewrite strider_hash_outside by (try assumption; lia). reflexivity.
     - (* one strider per shepherd *)
@@ -306,14 +362,14 @@ Section Hash.
           intros s l Hinl Hpos. apply in_map_iff in Hinl. destruct Hinl as (s' & Heq & Hs').
           inversion Heq; subst s l. apply in_map_iff in Hs'. destruct Hs' as (k & <- & Hk). apply in_seq in Hk.
           assert (Hkn : N.of_nat k < n) by lia.
-          rewrite Hq0 in Hpos. rewrite strider_hash_covers in Hpos; [| exact Hkn | rewrite <- Hq0; exact Hin].
+          rewrite strider_hash_covers in Hpos; [| exact Hkn | exact Hin].
           rewrite shepof_hash. destruct ((i / ss) mod n =? N.of_nat k) eqn:E; [apply N.eqb_eq in E; exact E | inversion Hpos].
-        * intros s Hs. rewrite Hq0. rewrite strider_hash_covers; [| exact Hs | rewrite <- Hq0; exact Hin].
+        * intros s Hs. rewrite strider_hash_covers; [| exact Hs | exact Hin].
           rewrite N.eqb_sym. reflexivity.
       + intros Hout.
         rewrite (sum_indicator_all (fun s => strider n asg a s start stop) i n).
         * rewrite N.ltb_irrefl. reflexivity.
-        * intros s Hs. rewrite Hq0. rewrite strider_hash_outside; [| exact Hs | rewrite <- Hq0; exact Hlt | rewrite <- Hq0; exact Hout].
+        * intros s Hs. rewrite strider_hash_outside; [| exact Hs | exact Hlt | exact Hout].
           replace (s =? n) with false; [reflexivity|]. symmetry. apply N.eqb_neq. intros ->. exact (N.lt_irrefl _ Hs).
   Qed.
 End Hash.
